@@ -1,0 +1,20 @@
+//go:build verif
+
+package client
+
+import (
+	goatorepo "github.com/avos-io/goat/gen/goatorepo"
+)
+
+// Accessors for the external verification harness (build tag "verif" only).
+
+// VerifNumHandlers returns the number of registered calls.
+func (rm *RpcMultiplexer) VerifNumHandlers() int {
+	rm.mutex.Lock()
+	defer rm.mutex.Unlock()
+	return len(rm.handlers)
+}
+
+func VerifErrorIfDone(rpc *goatorepo.Rpc) (bool, error) { return errorIfDone(rpc) }
+
+func VerifToStatusError(err error) error { return toStatusError(err) }
